@@ -76,8 +76,8 @@ def run_seq(ctx, rp, tag, kinds, void=False, coro=False, strict=False, max_emit=
 
 
 # ---- concurrent part: spec/Signal/SignalConc.tla replayed by harness/signal_conc_replay.cpp ----
-CKCONST = {"prel": "PreL", "thrl": "ThrL", "precbt": "PreCbT", "precbf": "PreCbF", "thrcbt": "ThrCbT", "thrcbf": "ThrCbF"}
-CKPREFIX = {"prel": "p", "thrl": "l", "precbt": "a", "precbf": "b", "thrcbt": "t", "thrcbf": "f"}
+CKCONST = {"prel": "PreL", "thrl": "ThrL", "hookl": "HookL", "precbt": "PreCbT", "precbf": "PreCbF", "thrcbt": "ThrCbT", "thrcbf": "ThrCbF"}
+CKPREFIX = {"prel": "p", "thrl": "l", "hookl": "h", "precbt": "a", "precbf": "b", "thrcbt": "t", "thrcbf": "f"}
 CONC_ACTIONS = ["CXchg", "CDrop"]
 
 
@@ -117,6 +117,8 @@ def run_conc(ctx, rpc, tag, kinds, nemit=2, form="rvalue", max_paths=None, extra
         must.append("CEmit")
     if any(k.startswith("thr") for k in kinds):
         must += ["TStart", "TCas"]
+    if "hookl" in kinds:
+        must += ["THanded"]
     res, g = graph_replay(ctx, "Signal", "SignalConc", "SignalConc_base.cfg", tag, rpc, pj, header_fn=hdr,
                           constants=consts, must_take=must, max_paths=max_paths, extra_random=extra_random,
                           tlc_kw={"workers": 4})
@@ -161,7 +163,7 @@ def run_fine(ctx, rpc, tag, kinds, nemit=1, form="rvalue", max_paths=None):
             "exp": {l: st["nxt"][l] for l in lst if lst[l] == "casing"},
             "cblive": {c: (1 if lst[c] in ("casing", "waiting", "out", "dout") else 0) for c in cbs},
         }
-    must = ["CXchg", "CLocRun", "CLocDrop", "TCas", "TLocDone"]
+    must = ["CXchg", "CLocRun", "CLocDrop", "TCas", "TLocDone"] + (["TLocHanded"] if "hookl" in kinds else [])
     res, g = graph_replay(ctx, "Signal", "SignalFine", "SignalFine_base.cfg", tag, rpc, pj, header_fn=hdr,
                           constants=consts, must_take=must, max_paths=max_paths, tlc_kw={"workers": 4})
     try:
@@ -358,8 +360,8 @@ def run(ctx):
         seq("n_lft", LFT, max_emit=3, **cap)
         seq("vc_lgo", LGO, void=True, coro=True, max_emit=3, **cap)
         # the pair obtained through hook_up(fn), fn emitting 0..2 values through the collector before it returns
-        seq("hn_lgo", LGO, max_emit=2, hooked=True, reg_emit=2, max_paths=2500, extra_random=100)
-        seq("hc_glt", ["gated", "loop", "cbt"], coro=True, max_emit=2, hooked=True, reg_emit=2, max_paths=2500, extra_random=100)
+        seq("hn_lgo", LGO, max_emit=2, hooked=True, reg_emit=2, max_paths=1500, extra_random=50)
+        seq("hc_glt", ["gated", "loop", "cbt"], coro=True, max_emit=2, hooked=True, reg_emit=2, max_paths=1500, extra_random=50)
         # the promised properties under the discipline (Strict = TRUE), deeper bound, specification only
         seq("s_c_lgo", LGO, coro=True, strict=True, max_emit=3, replay=False)
         seq("s_n_lgt", LGT, strict=True, max_emit=3, replay=False)
@@ -371,6 +373,9 @@ def run(ctx):
         fine("y_l", ["thrl"], nemit=2)
         fine("y_lt", ["thrl", "thrcbt"], nemit=1, form="lvalue")
         fine("y_pl", ["prel", "thrl"], nemit=2)
+        # hook_up(fn) with fn handing the collector to the collector thread, which emits while fn is still running
+        conc("x_hlt", ["hookl", "thrl", "thrcbt"], nemit=1, max_paths=300)
+        fine("y_hl", ["hookl", "thrl"], nemit=2, max_paths=300)
         extra = conc_mixes(3)
         ctx.rng.shuffle(extra)
         for i, m in enumerate(extra[:3]):
@@ -388,6 +393,11 @@ def run(ctx):
             seq("s_" + c + "_llg", ["loop", "loop", "gated"], coro=coro, strict=True, max_emit=3, replay=False)
             seq("s_" + c + "_ggt", ["gated", "gated", "cbt"], coro=coro, strict=True, max_emit=3, replay=False)
             seq("s_v" + c + "_lgo", LGO, void=True, coro=coro, strict=True, max_emit=4, replay=False)
+            # the pair obtained through hook_up(fn)
+            seq("h" + c + "_lgo", LGO, coro=coro, max_emit=3, hooked=True, reg_emit=3)
+            seq("h" + c + "_glt", ["gated", "loop", "cbt"], coro=coro, max_emit=2, hooked=True, reg_emit=2)
+            seq("hv" + c + "_lgo", LGO, void=True, coro=coro, max_emit=3, hooked=True, reg_emit=2)
+            seq("s_h" + c + "_lgo4", LGO, coro=coro, strict=True, max_emit=4, hooked=True, reg_emit=2, replay=False)
         seq("n_llg", ["loop", "loop", "gated"], max_emit=2)
         seq("c_llg", ["loop", "loop", "gated"], coro=True, max_emit=2)
         seq("n_lg4", ["loop", "gated"], max_emit=4, replay_timeout=3000)
@@ -400,6 +410,13 @@ def run(ctx):
         conc("x3e", ["prel", "thrl", "thrl"], nemit=3)
         for i, m in enumerate(conc_mixes(2)):
             fine("y%d" % i, m, nemit=2, form="lvalue" if i % 2 else "rvalue")
+        for i, m in enumerate([["hookl"], ["hookl", "thrl"], ["hookl", "thrcbt"], ["hookl", "thrcbf"], ["hookl", "thrl", "thrl"],
+                               ["hookl", "thrl", "thrcbt"], ["hookl", "thrcbt", "thrcbf"]]):
+            conc("xh%d" % i, m, nemit=2, form="lvalue" if i % 2 else "rvalue")
+            if len(m) <= 2:
+                fine("yh%d" % i, m, nemit=2, form="lvalue" if i % 2 else "rvalue")
+        conc("xh7", ["hookl", "thrl"], nemit=3)
+        fine("yh7", ["hookl", "thrl", "thrcbt"], nemit=1)
         fine("y3a", ["prel", "thrl", "thrcbt"], nemit=2)
         fine("y3b", ["thrl", "thrl", "precbt"], nemit=1)
         fine("y3c", ["thrl", "thrcbf", "thrcbt"], nemit=1, form="lvalue")
@@ -415,4 +432,5 @@ def run(ctx):
     ctx.assume("reference counting of the shared state (std::shared_ptr control block) is not a scheduling point: handle "
                "copies/destruction are interleaved with subscriptions at the grain of the operations on state::_chain only")
     ctx.assume("compare_exchange_weak does not fail spuriously (x86-64 lock cmpxchg); weak CAS is executed as strong under the controlled scheduler")
-    ctx.assume("value type int (and void); hook_up() is not covered")
+    ctx.assume("value type int (and void); the registration function of hook_up() stores or drops the collector, emits "
+               "through it with storing call forms only, or hands it to the collector thread")
